@@ -39,6 +39,71 @@ theorem fgt_iff_tkey_noPosZero {a b : Nat} (ha : isNaN a = false) (hb : isNaN b 
 theorem fgt_nan_left {a b : Nat} (h : isNaN a = true) : fgt a b = false := by simp [fgt, h]
 theorem fgt_nan_right {a b : Nat} (h : isNaN b = true) : fgt a b = false := by simp [fgt, h]
 
+/-! ## std's `total_cmp` formula on `BitVec 32` -/
+
+theorem xor_two_pow_of_lt {a n : Nat} (h : a < 2 ^ n) : a ^^^ 2 ^ n = 2 ^ n + a := by
+  apply Nat.eq_of_testBit_eq
+  intro i
+  rw [Nat.testBit_xor, Nat.testBit_two_pow]
+  rcases Nat.lt_trichotomy i n with hi | hi | hi
+  · rw [Nat.testBit_two_pow_add_gt hi]
+    have : (n = i) = False := by simp; omega
+    simp [this]
+  · subst hi
+    rw [Nat.testBit_two_pow_add_eq, Nat.testBit_lt_two_pow h]
+    simp
+  · have h1 : a < 2 ^ i := Nat.lt_trans h (Nat.pow_lt_pow_right (by omega) hi)
+    have h2 : 2 ^ n + a < 2 ^ i := by
+      have : 2 ^ (n + 1) ≤ 2 ^ i := Nat.pow_le_pow_right (by omega) hi
+      rw [Nat.pow_succ] at this
+      omega
+    rw [Nat.testBit_lt_two_pow h1, Nat.testBit_lt_two_pow h2]
+    have : (n = i) = False := by simp; omega
+    simp [this]
+
+/-- The key std's `f32::total_cmp` compares (library/core/src/num/f32.rs):
+`let mut left = self.to_bits() as i32; left ^= (((left >> 31) as u32) >> 1) as i32;`
+— `>>` on `i32` is the arithmetic shift (`sshiftRight`), on `u32` the logical one, the casts
+are bit-preserving, and the result is compared as `i32` (`toInt`). -/
+def stdKey (x : BitVec 32) : Int := (x ^^^ ((x.sshiftRight 31) >>> 1)).toInt
+
+theorem stdKey_eq_tkey (x : BitVec 32) : stdKey x = tkey x.toNat := by
+  have hx := x.isLt
+  unfold stdKey tkey
+  cases hm : x.msb with
+  | false =>
+    have hlt : x.toNat < 2 ^ 31 := by
+      rw [BitVec.msb_eq_decide] at hm; simpa using hm
+    have h0 : x >>> 31 = 0#32 := by
+      apply BitVec.eq_of_toNat_eq
+      rw [BitVec.toNat_ushiftRight, Nat.shiftRight_eq_div_pow]
+      simp; omega
+    rw [BitVec.sshiftRight_eq_of_msb_false hm, h0]
+    have : (0#32 >>> 1) = 0#32 := by decide
+    rw [this, BitVec.xor_zero, BitVec.toInt_eq_msb_cond, hm, if_pos hlt]
+    simp
+  | true =>
+    have hge : 2 ^ 31 ≤ x.toNat := by
+      rw [BitVec.msb_eq_decide] at hm; simpa using hm
+    have hn : (~~~x).toNat = 2 ^ 32 - 1 - x.toNat := BitVec.toNat_not
+    have h0 : (~~~x) >>> 31 = 0#32 := by
+      apply BitVec.eq_of_toNat_eq
+      rw [BitVec.toNat_ushiftRight, Nat.shiftRight_eq_div_pow, hn]
+      simp; omega
+    rw [BitVec.sshiftRight_eq_of_msb_true hm, h0]
+    have hc : (~~~(0#32) >>> 1) = BitVec.allOnes 32 ^^^ 0x80000000#32 := by decide
+    rw [hc, ← BitVec.xor_assoc, BitVec.xor_allOnes]
+    have hmsb : (~~~x ^^^ 0x80000000#32).msb = true := by
+      rw [BitVec.msb_xor, BitVec.msb_not, hm]; decide
+    have hnat : (~~~x ^^^ 0x80000000#32).toNat = 2 ^ 31 + (2 ^ 32 - 1 - x.toNat) := by
+      rw [BitVec.toNat_xor, hn]
+      have : (0x80000000#32).toNat = 2 ^ 31 := by decide
+      rw [this]
+      exact xor_two_pow_of_lt (by omega)
+    have hnl : ¬ x.toNat < 2 ^ 31 := by omega
+    rw [BitVec.toInt_eq_msb_cond, hmsb, hnat, if_pos rfl, if_neg hnl]
+    omega
+
 section Generic
 variable {α : Type} (key : α → Int) (gt : α → α → Bool) (val : α → Int)
 
